@@ -128,7 +128,8 @@ def rest_ops(s):
                 sel = sel_all
             if q == 'all_projects=true':
                 sel = None
-            op('GET', base + ('?' + q if q else ''), q, mode='many',
+            qs = q.replace('project_id=A', 'project_id=' + W.PID['A'])
+            op('GET', base + ('?' + qs if qs else ''), q, mode='many',
                sel=sel, route=base)
 
     def items(base, by=('name', 'id'), get_by=None):
@@ -170,13 +171,13 @@ def rest_ops(s):
         mb = '/v2/workflows/%s/members' % rid
         mr = '/v2/workflows/<id>/members'
         op('GET', mb, route=mr)
-        op('GET', mb + '/M', 'M', route=mr + '/<member>')
+        op('GET', mb + '/' + W.PID['M'], 'M', route=mr + '/<member>')
         op('POST', mb, 'self', body=lambda who: {
             'member_id': W.CALLERS[who].project}, route=mr)
-        op('POST', mb, 'third', body={'member_id': 'Z'}, route=mr)
-        op('PUT', mb + '/M', 'M,accept', body={'status': 'accepted'},
+        op('POST', mb, 'third', body={'member_id': W.PID['Z']}, route=mr)
+        op('PUT', mb + '/' + W.PID['M'], 'M,accept', body={'status': 'accepted'},
            route=mr + '/<member>')
-        op('DELETE', mb + '/M', 'M', route=mr + '/<member>')
+        op('DELETE', mb + '/' + W.PID['M'], 'M', route=mr + '/<member>')
     elif t == 'action':
         items('/v2/actions', get_by=('name',))
         lists('/v2/actions')
